@@ -242,9 +242,17 @@ impl MessageDecoder {
                 error,
             }))
         })? {
+            let attr_type: AttributeType = raw_attr.attr_type.into();
+            if ignore_attribute(&mut filter, attr_type) && ignore {
+                // Attributes that are not admitted after MessageIntegrity,
+                // MessageIntegritySha256 or Fingerprint are skipped without
+                // looking at their value
+                index = MESSAGE_HEADER_SIZE + iter.pos();
+                position += 1;
+                continue;
+            }
             let ctx =
                 AttributeDecoderContext::new(self.ctx.clone(), &buffer[0..index], raw_attr.value);
-            let attr_type: AttributeType = raw_attr.attr_type.into();
             let (attr, _) = match get_handler(attr_type) {
                 Some(handler) => handler(ctx).map_err(|error| {
                     StunDecodeError(StunErrorLevel::Attribute(StunAttributeError {
@@ -266,17 +274,15 @@ impl MessageDecoder {
                 ),
             };
 
-            if !ignore_attribute(&mut filter, attr_type) || !ignore {
-                validate_attribute(&attr, &self.ctx, buffer).map_err(|error| {
-                    StunDecodeError(StunErrorLevel::Attribute(StunAttributeError {
-                        attr_type: Some(attr_type),
-                        position,
-                        error,
-                    }))
-                })?;
+            validate_attribute(&attr, &self.ctx, buffer).map_err(|error| {
+                StunDecodeError(StunErrorLevel::Attribute(StunAttributeError {
+                    attr_type: Some(attr_type),
+                    position,
+                    error,
+                }))
+            })?;
 
-                builder = builder.with_attribute(attr);
-            }
+            builder = builder.with_attribute(attr);
 
             index = MESSAGE_HEADER_SIZE + iter.pos();
             position += 1;
